@@ -24,6 +24,10 @@ def render(spec, prologue="", epilogue="", union=None, actions=None, tags=None):
         num = spec.get("nums", {}).get(t)
         tg = "<%s> " % tags[t] if t in tags else ""
         out.append("%%token %s%s%s\n" % (tg, t, (" %d" % num) if num else ""))
+    if spec.get("eof_token"):
+        out.append("%token EOF -1\n")        # the documented alias of the end marker (examples/e.y); not a grammar symbol
+    for t, num in spec.get("redecl", []):
+        out.append("%%token %s %d\n" % (t, num))   # a later declaration that only adds the number
     for lit in spec["lits"]:
         if lit in tags:
             out.append("%%token <%s> %s\n" % (tags[lit], lit))
